@@ -1191,6 +1191,16 @@ def apply(st, op):
                 w.probe('write_into_result' if s.src else 'write_into_root')
             except (KeyError, IndexError, ValueError, TypeError) as e:
                 obs['note'] = 'raised:' + type(e).__name__
+            except RuntimeError as e:
+                if 'NetCDF' in str(e) and s.kind == 'mem' and s.src:
+                    # an in-memory result refused the write with a netCDF library error:
+                    # the variable is a disk file's own variable handed through
+                    raise Violation('result-aliases-other-file',
+                                    'writing into %s of slot %d (in-memory result made by %s) '
+                                    'raised %s: the variable belongs to a disk-backed input' % (
+                                        op['var'], s.id, s.via, e),
+                                    sig={'field': 'var-is-disk-variable', 'via': s.via})
+                raise
             wrote = s.id
             m = _snap(st, s)
             if isinstance(m, Exception):
